@@ -227,8 +227,30 @@ fn build_near_into<T: Flavor>(pool: &mut Pool<T>, types: &[&str], mk: impl Fn(&s
 pub fn check_pool<T: Flavor + Sync + Send>(pool: &Pool<T>, acc: &mut Acc) -> Value {
     let n = pool.values.len();
     // sort by Ord
-    let mut idx: Vec<usize> = (0..n).collect();
-    idx.sort_by(|a, b| pool.values[*a].0.cmp(&pool.values[*b].0));
+    // (a hand-written merge sort: std's sort may panic when the comparison is not a total order,
+    // which is exactly what a broken implementation provides; the all-pairs pass below then names the pair)
+    fn merge_sort(v: Vec<usize>, less_eq: &dyn Fn(usize, usize) -> bool) -> Vec<usize> {
+        if v.len() <= 1 {
+            return v;
+        }
+        let right = v[v.len() / 2..].to_vec();
+        let left = v[..v.len() / 2].to_vec();
+        let (l, r) = (merge_sort(left, less_eq), merge_sort(right, less_eq));
+        let (mut i, mut j, mut out) = (0, 0, Vec::with_capacity(l.len() + r.len()));
+        while i < l.len() && j < r.len() {
+            if less_eq(l[i], r[j]) {
+                out.push(l[i]);
+                i += 1;
+            } else {
+                out.push(r[j]);
+                j += 1;
+            }
+        }
+        out.extend_from_slice(&l[i..]);
+        out.extend_from_slice(&r[j..]);
+        out
+    }
+    let idx: Vec<usize> = merge_sort((0..n).collect(), &|a, b| pool.values[a].0.cmp(&pool.values[b].0) != std::cmp::Ordering::Greater);
     let vals: Vec<&(GenericPurl<T>, String, Value)> = idx.iter().map(|i| &pool.values[*i]).collect();
     let hashes: Vec<u64> = vals.iter().map(|v| std_hash(&v.0)).collect();
     let groups: std::collections::BTreeSet<&str> = vals.iter().map(|v| v.1.as_str()).collect();
